@@ -4,7 +4,7 @@
 # writes seeded/RESULTS.md.  Exit 0 iff every confirmed change is detected by its own property's check.
 cd "$(dirname "$0")/.."
 [ -x bin/gsdcheck ] || ./setup.sh >/dev/null
-declare -A PROP=( [revert-D1]=C03 [revert-D2]=C02 [revert-D3]=C04 [revert-D4]=C04 [revert-D5]=C04 [revert-D6]=C05 [revert-D7]=C11 [revert-D8]=C17 [revert-D9]=C16 )
+declare -A PROP=( [revert-D1]=C03 [revert-D2]=C02 [revert-D3]=C04 [revert-D4]=C04 [revert-D5]=C04 [revert-D6]=C05 [revert-D7]=C11 [revert-D8]=C17 [revert-D9]=C16 [revert-D10]=C16 )
 out=seeded/RESULTS.md
 ONLY="$*"
 [ -n "$ONLY" ] && out=/tmp/selftest_partial.$$.md
